@@ -492,7 +492,7 @@ def dispatcher_prefix(prog, an, lay, parser_path):
     for b in prog.bodies.values():
         for blk, t, c in b.calls():
             if c is not None and c.local and c.path == parser_path:
-                arg = peel(an.op(b, t["args"][-1]))
+                arg = peel(an.opx(b, t["args"][-1]))       # private splitting helpers inlined
                 if arg[0] == "arg":
                     return 0, "whole buffer"
                 if arg[0] == "tfield" and arg[2] == 0 and arg[1][0] == "ok":
